@@ -34,7 +34,7 @@ SPEC = json.load(open(os.path.join(os.path.dirname(os.path.dirname(os.path.abspa
 def tag_set_fns(ctx):
     """name -> (entries {(ns,local): bool}, super fn name or None) for every tag-set function of html5ever"""
     out = {}
-    for it in ctx.ast.crates["html5ever"]:
+    for it in ctx.ast.walkable("html5ever"):
         if it["k"] != "Fn" or it.get("body") is None or "tree_builder" not in it["mod"]:
             continue
         _collect_tagsets(it["name"], it["body"], out)
@@ -98,7 +98,7 @@ def _or_chain(e, out):
 def or_chain_fns(ctx):
     """name -> operands, for the functions of tree_builder whose body is an || chain over set functions / matches!"""
     out = {}
-    for it in ctx.ast.crates["html5ever"]:
+    for it in ctx.ast.walkable("html5ever"):
         if it["k"] != "Fn" or it.get("body") is None or "tree_builder" not in it["mod"]:
             continue
         stmts = [x for x in it["body"] if x["k"] == "ExprStmt"]
@@ -164,7 +164,7 @@ LOCAL_SETS = {
 
 def local_tag_sets(ctx):
     out = []
-    for it in ctx.ast.crates["html5ever"]:
+    for it in ctx.ast.walkable("html5ever"):
         if it["k"] != "Fn" or it.get("body") is None or "tree_builder" not in it["mod"]:
             continue
 
@@ -218,7 +218,7 @@ def r02_1(ctx):
         check(k + "-foreign-members", None if r is None else {x for x in r if x[0] != "html"}, foreign, "MathML / SVG members of " + k)
     # integration points (matches! style)
     for fn, key, ns in (("mathml_text_integration_point", "mathml_text_integration_point", "mathml"), ("svg_html_integration_point", "svg_html_integration_point", "svg")):
-        its = [it for it in ctx.ast.crates["html5ever"] if it["k"] == "Fn" and it["name"] == fn and it.get("body") is not None]
+        its = [it for it in ctx.ast.walkable("html5ever") if it["k"] == "Fn" and it["name"] == fn and it.get("body") is not None]
         got = set()
         for it in its:
             def f(nd):
@@ -309,7 +309,7 @@ def r02_1(ctx):
 
 
 def _adjust_table(ctx, fname):
-    its = [it for it in ctx.ast.crates["html5ever"] if it["k"] == "Fn" and it["name"] == fname and it.get("body") is not None and "tree_builder" in it["mod"]]
+    its = [it for it in ctx.ast.walkable("html5ever") if it["k"] == "Fn" and it["name"] == fname and it.get("body") is not None and "tree_builder" in it["mod"]]
     if len(its) != 1:
         raise AnchorMissing(fname)
     rows = []
@@ -495,7 +495,7 @@ def r02_9(ctx):
         "LIMITED_QUIRKY_PUBLIC_PREFIXES": "limited_quirks_public_id_prefixes", "HTML4_PUBLIC_PREFIXES": "html401_public_id_prefixes_quirks_without_system_id_limited_with",
     }
     code = {}
-    for it in ctx.ast.crates["html5ever"]:
+    for it in ctx.ast.walkable("html5ever"):
         if it["k"] in ("Static", "Const") and it["mod"].endswith("tree_builder::data") and it["name"] in want:
             arr = it["init"]
             while arr.get("k") in ("Ref", "Paren", "Cast"):
